@@ -598,6 +598,26 @@ theorem inv_sweep {s : State} (hs : Inv s) :
   · intro u hu; exact List.mem_append_right _ (hs.oktaLog u hu)
   · exact hs.bootWorld
 
+theorem sameAux_setExtraTotp (s : State) (u : User) : SameAux s (setExtraTotp s u) := by
+  refine ⟨rfl, rfl, rfl, rfl, rfl, rfl, ?_, rfl⟩
+  intro u'
+  simp only [setExtraTotp, upd]
+  split
+  · rename_i h; subst h; rfl
+  · rfl
+
+theorem inv_totpEnrol {s : State} (hs : Inv s) (evs : List (User × Factor)) (c : Option Cookie) :
+    Inv (assemble evs (hTotpEnrol s c)) := by
+  unfold hTotpEnrol
+  (repeat' split) <;> first
+    | exact inv_reject hs _ _
+    | exact inv_sameAux hs (sameAux_setExtraTotp s _) (by intro c hc; cases hc)
+
+theorem inv_rename {s : State} (hs : Inv s) (evs : List (User × Factor)) (c : Option Cookie) (u : User) (p : Bool) :
+    Inv (assemble evs (hRename s c u p)) := by
+  unfold hRename
+  (repeat' split) <;> exact inv_reject hs _ _
+
 /-- **one step** of the repaired system preserves the invariant -/
 theorem handle0_inv {s : State} (hs : Inv s) (op : Op) :
     Inv (assemble (events s op) (handle0 fixed s op)) := by
@@ -622,6 +642,9 @@ theorem handle0_inv {s : State} (hs : Inv s) (op : Op) :
   | oktaPoll c => exact inv_oktaPoll hs c
   | tick => exact inv_tick hs
   | sweep => exact inv_sweep hs
+  | totpEnrol c => exact inv_totpEnrol hs _ _
+  | totpRename c u => exact inv_rename hs _ _ _ _
+  | hwRename c u => exact inv_rename hs _ _ _ _
   | fault sv ld => exact inv_sameAux hs ⟨rfl, rfl, rfl, rfl, rfl, rfl, fun _ => rfl, rfl⟩ (by intro c hc; cases hc)
 
 theorem step_inv {s : State} (hs : Inv s) (op : Op) : Inv (step fixed s op).1 := by
@@ -798,6 +821,20 @@ theorem shape_assemble {s : State} {r : Res} (evs : List (User × Factor)) (h : 
     Shape s (assemble evs r) := ⟨h.now, h.prof, h.chal⟩
 
 /-- every step of the repaired system has the monotone shape -/
+theorem shape_setExtraTotp (s : State) (u : User) : Shape s (setExtraTotp s u) := by
+  refine ⟨Nat.le_refl _, fun u' => ?_, ChalStep.same rfl rfl⟩
+  simp only [setExtraTotp, upd]
+  split
+  · rename_i h; subst h; exact ⟨rfl, rfl, rfl, Nat.le_refl _, Or.inl rfl⟩
+  · exact ProfStep.refl _
+
+theorem shape_totpEnrol (s : State) (c : Option Cookie) : Shape s (hTotpEnrol s c).1 := by
+  unfold hTotpEnrol
+  (repeat' split) <;> first | exact shape_same rfl rfl rfl rfl | exact shape_setExtraTotp s _
+
+theorem shape_rename (s : State) (c : Option Cookie) (u : User) (p : Bool) : Shape s (hRename s c u p).1 := by
+  unfold hRename; same_tac
+
 theorem handle0_shape (s : State) (op : Op) : Shape s (handle0 fixed s op).1 := by
   cases op with
   | login u pw => exact shape_login s u pw
@@ -820,6 +857,9 @@ theorem handle0_shape (s : State) (op : Op) : Shape s (handle0 fixed s op).1 := 
   | oktaPoll c => exact shape_oktaPoll s c
   | tick => exact ⟨Nat.le_succ _, fun _ => ProfStep.refl _, ChalStep.same rfl rfl⟩
   | sweep => exact shape_sweep s
+  | totpEnrol c => exact shape_totpEnrol s _
+  | totpRename c u => exact shape_rename s _ _ _
+  | hwRename c u => exact shape_rename s _ _ _
   | fault sv ld => exact shape_same rfl rfl rfl rfl
 
 theorem step_shape (s : State) (op : Op) : Shape s (step fixed s op).1 := by
